@@ -32,7 +32,7 @@ BAND = "confidence_from_left_right_consistency"
 def translate():
     from translator import registry
 
-    return registry.generate("Constants")
+    return registry.generate("Constants", "RefineCC")
 
 
 def wire(q):
@@ -99,8 +99,9 @@ def one_row(case, r):
     return out
 
 
-def check_outputs(ctx, report, case, impl, label, clause_prefix=None):
-    """spec on the implementation's output of disparity_checking(A, B); returns the number of failing pixels"""
+def check_outputs(ctx, report, case, impl, label, clause_prefix=None, report_case=None):
+    """spec on the implementation's output of disparity_checking(A, B); returns the number of failing pixels.
+    `report_case`: the case to record for a replay when `case` was derived from it (validation_run)."""
     spec = ctx.lean.call("C07.spec", **model_payload(case), out_mask=impl["mask"], out_conf=impl["conf"], out_disp=impl["disp"])
     for k, v in spec["situations"].items():
         report.count("situation_" + k, v)
@@ -127,9 +128,9 @@ def check_outputs(ctx, report, case, impl, label, clause_prefix=None):
         names = [cl if clause_prefix is None else clause_prefix for cl in f["clauses"]]
         if all(sum(1 for g in report.failures if g["clause"] == nm and g["trigger"] == f["trigger"]) >= 3 for nm in names):
             continue  # this kind is already documented three times
-        rep_case = dict(case, focus=[r, c])
+        rep_case = dict(case, focus=[r, c]) if report_case is None else dict(report_case, focus=[r, c])
         rep_impl = {"mask": impl["mask"][r][c], "conf": impl["conf"][r][c], "disp": impl["disp"][r][c]}
-        if int(case["offset"]) == 0 and len(case["disp_a"]) > 1:
+        if report_case is None and int(case["offset"]) == 0 and len(case["disp_a"]) > 1:
             small = one_row(case, r)
             alone = ca.run_check(small)
             if alone["res"] == "ok":
@@ -205,12 +206,13 @@ def check_run_case(ctx, report, case, label):
     base = {"threshold": case["threshold"], "threshold_is_int": case.get("threshold_is_int", False), "offset": case["offset"]}
     left_case = dict(base, dmin=lft["dmin"], dmax=lft["dmax"], disp_a=lft["disp"], mask_a=lft["mask"],
                      disp_b=rgt["disp"], mask_b=rgt["mask"])
-    check_outputs(ctx, report, left_case, impl["left"], label + ":left")
+    check_outputs(ctx, report, left_case, impl["left"], label + ":left", report_case=case)
     # the right map against the left one, by the same rule (the left disparities are those left by the first check)
     right_case = dict(base, dmin=rgt["dmin"], dmax=rgt["dmax"], disp_a=rgt["disp"], mask_a=rgt["mask"],
                       disp_b=impl["left"]["disp"], mask_b=impl["left"]["mask"])
     report.hit("right_same_rule")
-    check_outputs(ctx, report, right_case, impl["right"], label + ":right", clause_prefix="right_same_rule")
+    check_outputs(ctx, report, right_case, impl["right"], label + ":right", clause_prefix="right_same_rule",
+                  report_case=case)
 
 
 # ------------------------------------------------------------------------------------------------
@@ -377,9 +379,22 @@ def translator_cross_check(report, status):
         status.problem("translator", "bits 8 / 9 / invalid mask are not the documented values")
 
 
+def variant_cross_check(report, status):
+    """what the translator read in the source text (the operator of `outside_right`, whether the outside pixels go
+    through the mismatch search) agrees with what the probe observed on the running code"""
+    t11 = (status.generated or {}).get("T11")
+    if not t11:
+        return
+    report.translator_checks += 1
+    if t11["variant"]["cross_check"] != VARIANT["name"]:
+        status.problem("translator", f"variant read in the source ({t11['variant']['cross_check']}) differs from the "
+                                     f"behaviour observed ({VARIANT['name']})")
+
+
 def run(ctx, report, status):
     translator_cross_check(report, status)
     detect_variant(report)
+    variant_cross_check(report, status)
     report.rule = (
         "one call of the real disparity_checking(A, B) per case, compared cell by cell (exactly) with the Lean model, the "
         "Lean specification evaluated on the implementation's output; small scope exhaustively (left rows over "
